@@ -6,6 +6,8 @@ import DimodProofs.CppMore
 import DimodProofs.NoUB2
 import DimodProofs.CqmInv
 import DimodProofs.NoUBExpr
+import DimodModel.CppCover
+import DimodProofs.NoUBCqm
 
 /-! # C20 — no call sequence corrupts the native data structures
 
@@ -186,6 +188,71 @@ theorem python_boundary_rejects (m : Bqm) (h : m.WF) (via : Via) :
 
 /-- non-vacuity: a concrete model with a self-loop where the counts are what they should be -/
 example : ((CppM.newQm.addVar (some (.integer, 0, 5))).addVar (some (.binary, 0, 1)) |>.quad 0 0 (1/2) false).1.numInteractions = 1 := by
+  decide +kernel
+
+/-! ## Round 7: the op alphabet is checked against the header -/
+
+/-- **Every public mutator of `dimod::abc::QuadraticModelBase`** — the list `Generated.AbcMutators.mutators` is extracted
+    from dimod/include/dimod/abc.h on every run (name, number of parameters, initializer-list overload) — has an entry in
+    the coverage table `Cpp.cover` naming at least one operation, and only operations that the model driver executes
+    (`Cpp.driverOps`, enforced by `Drivers/CppMain.lean`).  A mutator added to the header, or one whose arity changes, makes
+    this theorem fail to build; the harness (`c20.py`, "op alphabet") checks on every run that harness/cpp/interp.cc calls
+    each of them with that arity under the named op and that the generator emitted the op. -/
+theorem abc_mutators_covered : ∀ s ∈ Generated.AbcMutators.mutators, Cpp.covered s = true := by
+  decide +kernel
+
+/-- the table has no entry for a function the header does not have (stale entries are reported, too) -/
+theorem abc_cover_has_no_stale_entry : ∀ e ∈ Cpp.cover, Generated.AbcMutators.mutators.contains e.1 = true := by
+  decide +kernel
+
+/-! ## Round 7: the Constraint / CQM level with checked indexing -/
+
+/-- **Constraint / CQM level, one call** (`DimodModel/CheckedCqm.lean`: every `constraints_[c]`, `constraints_.begin() + c`,
+    `varinfo_[v]`, `varinfo_.begin() + v`, and — through `Expression::substitute_variable` / `reindex_variables` on the
+    objective and on every constraint — every access to `variables_`, `linear_biases_`, `(*adj_ptr_)` is a checked
+    lookup).  Under the representation invariant (`CqmCWF`: every expression of the model well-formed, the columns of
+    `varinfo_` of one length) and the documented precondition of the call (`COp.Pre`: constraint / variable index inside
+    the model — the `assert`s of constrained_quadratic_model.h), **no lookup fails**: the checked call returns, returns
+    exactly what the unchecked call computes, and the invariant is kept.  Calls: any Expression operation on the
+    objective or on `constraint_ref(c)`, `add_constraint()`, `remove_constraint(c)`, copy assignment and swap of two
+    constraints, CQM-wide `substitute_variable`, `remove_variable`, `fix_variable`, `set_lower_bound` /
+    `set_upper_bound` / `set_vartype`, `clear`.  (Copy / move / swap of whole models exchange the three members and touch
+    no index.)  This lifts the Constraint / CQM part of the gap of `no_ub_partial`. -/
+theorem cqm_no_ub (m : Cqm) (w : CqmP.CqmCWF m) (op : Cqm.COp) (hp : Cqm.COp.Pre m op) :
+    m.cstep? op = some (m.cstep op) ∧ CqmP.CqmCWF (m.cstep op) :=
+  CqmP.cstep?_eq w op hp
+
+/-- **… and every call sequence** on a CQM, from any well-formed model (in particular the empty one), in which each call
+    meets its precondition in the state it is issued in: the run with checked lookups never fails, equals the unchecked
+    run and ends well-formed — the invariant `expression_wf_preserved_partial` speaks about is preserved along every
+    such history, for the objective and every constraint at once. -/
+theorem cqm_histories_no_ub (m : Cqm) (w : CqmP.CqmCWF m) (ops : List Cqm.COp) (hp : Cqm.PreAll m ops) :
+    Cqm.crun? (some m) ops = some (m.crun ops) ∧ CqmP.CqmCWF (m.crun ops) :=
+  CqmP.crun?_eq ops w hp
+
+theorem cqm_histories_no_ub_from_empty (ops : List Cqm.COp) (hp : Cqm.PreAll {} ops) :
+    Cqm.crun? (some {}) ops = some (({} : Cqm).crun ops) ∧ CqmP.CqmCWF (({} : Cqm).crun ops) :=
+  CqmP.crun?_eq ops CqmP.cqmCWF_empty hp
+
+/-- non-vacuity: a checked run on a three-variable CQM (objective term, a constraint, CQM-wide fix, constraint
+    removal) succeeds — and the checks are real: removing a constraint of an empty model is a failing access -/
+example : (Cqm.crun? (some { vt := [.integer, .binary, .spin], lb := [0, 0, -1], ub := [5, 1, 1] })
+    [.objOp (.addQuadratic 0 2 1), .addConstraint, .consOp 0 (.addLinear 1 (1/2)), .consOp 0 (.addQuadratic 0 1 2),
+     .fixVariable 0 2, .swapConstraints 0 0, .removeConstraint 0]).isSome = true := by
+  decide +kernel
+
+example : ({} : Cqm).cstep? (.removeConstraint 0) = none := rfl
+
+/-- non-vacuity of the hypotheses of `cqm_histories_no_ub_from_empty`: a sequence from the empty model in which every call
+    meets its precondition in the state it is issued in (the second constraint exists when it is edited and removed) -/
+example : Cqm.PreAll {} [.addConstraint, .addConstraint, .consOp 1 (.addQuadratic 0 1 (1/2)), .swapConstraints 0 1,
+    .objOp (.addLinear 2 1), .removeConstraint 1] := by
+  refine ⟨trivial, trivial, ?_, ?_, trivial, ?_, trivial⟩
+  · show (1 : Nat) < _; decide +kernel
+  · show (0 : Nat) < _ ∧ (1 : Nat) < _; exact ⟨by decide +kernel, by decide +kernel⟩
+  · show (1 : Nat) < _; decide +kernel
+
+example : (({ vt := [.binary], lb := [0], ub := [1] } : Cqm).cstep? (.removeVariable 3)).isSome = false := by
   decide +kernel
 
 end C20
